@@ -80,7 +80,7 @@ def _check_1d(desc, tier, V, st):
     vecs = [('e%d' % j, np.eye(nc)[j]) for j in range(nc)]
     vecs.append(('ones', np.ones(nc)))
     vecs.append(('dense', np.array([((7 * j * j + 3 * j) % 11) - 5.0 for j in range(nc)])))
-    vecs.append(('tiny', 1e-11 * np.array([((7 * j * j + 3 * j) % 11) - 5.0 for j in range(nc)])))      # evaluation is linear in the coefficients
+    vecs.append(('tiny', 1e-20 * np.array([((7 * j * j + 3 * j) % 11) - 5.0 for j in range(nc)])))      # evaluation is linear in the coefficients
 
     def agree(got, c, der):
         R, RL = ref[der]
